@@ -11,6 +11,8 @@ include!(env!("VERIF_SLICE_C06"));
 include!(env!("VERIF_SLICE_C11"));
 include!(env!("VERIF_SLICE_C07"));
 include!(env!("VERIF_SLICE_C16"));
+include!(env!("VERIF_SLICE_C19_GATE"));
+include!(env!("VERIF_SLICE_C19"));
 
 // C16 -- the collector's hand-over of completed function calls: `drain_function_calls` returns every completed call exactly
 // once, ordered by the provider's output_index (arrival order among equal indices), and leaves nothing behind, so a second
